@@ -2,7 +2,11 @@
 // A list view is the sequence of (key id, value id) pairs, most recently used first, plus its capacity.
 #![allow(missing_docs, dead_code)]
 
-pub const NMAX: usize = 4;
+/// longest list a view can hold: N + 1 where N is the list-length bound of the build (VERIF_N, default 3)
+pub const NMAX: usize = match option_env!("VERIF_N") {
+    Some(s) => (s.as_bytes()[0] - b'0') as usize + 1,
+    None => 4,
+};
 
 /// maps keys/values to small ids so that views of drop-tracked payloads are plain data
 pub trait Vid {
@@ -264,6 +268,113 @@ pub fn spec_lru_put(pre: &Abs, k: u8, v: u8) -> (Abs, PR) {
                 let (lk, lv) = (pre.k[pre.n - 1], pre.v[pre.n - 1]);
                 (pre.drop_last().push_front(k, v), PR::Evicted(lk, lv))
             }
+        }
+    }
+}
+
+// ------------------------------------------------------------------ several lists at once (composite caches)
+
+pub fn lookup(lists: &[&Abs], key: u8) -> Option<u8> {
+    let mut r = None;
+    let mut li = lists.len();
+    while li > 0 {
+        li -= 1;
+        if let Some(v) = lists[li].val_of(key) {
+            r = Some(v);
+        }
+    }
+    r
+}
+
+pub fn total(lists: &[&Abs]) -> usize {
+    let mut t = 0;
+    let mut li = 0;
+    while li < lists.len() {
+        t += lists[li].n;
+        li += 1;
+    }
+    t
+}
+
+/// number of lists that hold `key`
+pub fn holders(lists: &[&Abs], key: u8) -> usize {
+    let mut t = 0;
+    let mut li = 0;
+    while li < lists.len() {
+        if lists[li].has(key) {
+            t += 1;
+        }
+        li += 1;
+    }
+    t
+}
+
+/// every key is held by at most one list, and each list has distinct keys
+pub fn partitioned(lists: &[&Abs]) -> bool {
+    let mut ok = true;
+    let mut a = 0;
+    while a < lists.len() {
+        if !lists[a].distinct() {
+            ok = false;
+        }
+        let mut b = a + 1;
+        while b < lists.len() {
+            if !lists[a].disjoint(lists[b]) {
+                ok = false;
+            }
+            b += 1;
+        }
+        a += 1;
+    }
+    ok
+}
+
+/// for every key of `pre` other than `except1`/`except2`: `post` retains it with the same value
+pub fn others_kept(pre: &[&Abs], post: &[&Abs], except1: Option<u8>, except2: Option<u8>) -> bool {
+    let mut ok = true;
+    let mut li = 0;
+    while li < pre.len() {
+        let l = pre[li];
+        let mut i = 0;
+        while i < NMAX {
+            if i < l.n && Some(l.k[i]) != except1 && Some(l.k[i]) != except2 {
+                if lookup(post, l.k[i]) != Some(l.v[i]) {
+                    ok = false;
+                }
+            }
+            i += 1;
+        }
+        li += 1;
+    }
+    ok
+}
+
+/// C12 (relational): the PutResult tells the truth about how the retained set changed.
+/// pre/post: all lists whose entries count as retained (resident and, for 2Q/ARC, ghost lists).
+pub fn put_result_truthful(pre: &[&Abs], post: &[&Abs], k: u8, v: u8, r: PR) -> bool {
+    let before = lookup(pre, k);
+    match r {
+        PR::Put => before.is_none() && total(post) == total(pre) + 1 && others_kept(pre, post, None, None),
+        PR::Update(o) => before == Some(o) && total(post) == total(pre) && others_kept(pre, post, Some(k), None),
+        PR::Evicted(ek, ev) => {
+            if ek == k {
+                // pair handed straight back (capacity 0): nothing changed
+                before.is_none() && ev == v && total(post) == total(pre) && others_kept(pre, post, None, None)
+            } else {
+                before.is_none()
+                    && lookup(pre, ek) == Some(ev)
+                    && lookup(post, ek).is_none()
+                    && total(post) == total(pre)
+                    && others_kept(pre, post, Some(ek), None)
+            }
+        }
+        PR::EvictedAndUpdate(ek, ev, o) => {
+            before == Some(o)
+                && ek != k
+                && lookup(pre, ek) == Some(ev)
+                && lookup(post, ek).is_none()
+                && total(post) + 1 == total(pre)
+                && others_kept(pre, post, Some(ek), Some(k))
         }
     }
 }
